@@ -102,6 +102,35 @@ def _make_mem_class():
     return MemEndpoint
 
 
+class SimTime:
+    """Stand-in for the `time` module inside the interfaces package, should a change start using it: every clock
+    reads the simulator's clock and sleeping advances it (nothing in the unchanged tree reads a clock there)."""
+
+    def __init__(self, run):
+        self._run = run
+
+    def time(self):
+        return 1.7e9 + self._run.clock.now
+
+    def monotonic(self):
+        return self._run.clock.now
+
+    perf_counter = monotonic
+
+    def time_ns(self):
+        return int(self.time() * 1e9)
+
+    def monotonic_ns(self):
+        return int(self._run.clock.now * 1e9)
+
+    def sleep(self, dt):
+        self._run.probes["library_slept"] += 1
+        self._run.clock.advance(max(0.0, float(dt)))
+
+    def __getattr__(self, name):
+        raise HarnessError("the code under test used time.%s, which the simulated clock does not model" % name)
+
+
 class _Rec:
     """A sink or a source with a stable identity; several handle shapes."""
 
@@ -226,6 +255,11 @@ class RouterRun:
         self.net.hook_recv = self._sock_recv
         self.net.hook_send = self._sock_send
         m["udp"].socket = self.sockmod
+        for mod in (m["udp"], m["core"], m["obj"]):
+            # only where the module itself imported `time` (then the name is looked up at call time, like `socket`)
+            t_ = vars(mod).get("time")
+            if isinstance(t_, SimTime) or (t_ is not None and type(t_).__name__ == "module" and t_.__name__ == "time"):
+                mod.time = SimTime(self)
         self.pool = {}            # (hub, endpoint) -> datagrams read from the socket and not yet handed to the hub
         self._sock_dry = set()
         self._depth = 0
@@ -970,6 +1004,7 @@ def gen_trace(seed):
 
     p_repeat = rc.choice([0.0, 0.0, 0.08, 0.2])
     p_odd = rc.choice([0.0, 0.0, 0.1, 0.3])
+    all_mem = all(e["kind"] == "mem" for hc in hubs for e in hc["eps"])
 
     def newtok():
         # mostly unique payloads; sometimes the *same* payload again (two distinct messages with equal content
@@ -978,6 +1013,9 @@ def gen_trace(seed):
             return "m%d" % ro.randint(max(1, tok[0] - 2), tok[0])
         tok[0] += 1
         t = "m%d" % tok[0]
+        if all_mem and ro.random() < p_odd:
+            # in-memory endpoints carry whatever they are given: numbers (0 and 0.0 are falsy), not only text
+            return ro.choice([0, tok[0] + 1000, 0.0, False])
         if ro.random() < p_odd:
             # payloads a careless strip()/split()/re-encode would damage
             t = ro.choice([" " + t, t + " ", t + "\n", "\t" + t, t + "\u00e9" if not small_buf else t + "_", t + "x" * 300, t + " " + t,
